@@ -40,7 +40,7 @@ type c04Result struct {
 	ServedOK bool      `json:"served_ok"`
 	Gen0     uint64    `json:"gen0"` // WriteGen before / after the operation
 	Gen1     uint64    `json:"gen1"`
-	Dir      []string  `json:"dir"` // names in the state directory after the operation
+	Dir      []string  `json:"dir"`   // names in the state directory after the operation
 	Disk1    fileObs   `json:"disk1"` // the file as a second db.Open (same key) sees it after the operation
 	Retried  bool      `json:"retried"`
 	Res2     resObs    `json:"res2"` // the same call once more, if the first one reported an error
@@ -49,6 +49,7 @@ type c04Result struct {
 	Dir2     []string  `json:"dir2"`
 	KEKCalls []int     `json:"kek_calls"` // key uses: at open, during the operation, during dump+retry
 	Done     bool      `json:"done"`
+	Hung     string    `json:"hung,omitempty"` // filled in by the PARENT: the call on the handle that never returned
 }
 
 func init() {
@@ -183,11 +184,28 @@ func c04Child(o Opts) {
 	var res c04Result
 	write := func() {
 		bs, _ := json.Marshal(res)
-		os.WriteFile(o.Out, bs, 0600)
+		// (strace's injection counts per thread: when the watchdog's thread writes the result, ITS
+		// n-th openat/write/close may be the injected one - try again, the injection strikes once)
+		for i := 0; i < 5; i++ {
+			if os.WriteFile(o.Out, bs, 0600) == nil {
+				return
+			}
+		}
+	}
+	// No watchdog in here: a second goroutine would bring timers and wake-ups, i.e. write system
+	// calls on other threads, and strace injects into EVERY thread's n-th call.  Instead, this
+	// thread announces each call on the handle by a marker stat (.c04-call-<k>, visible in the
+	// trace); if the call never returns the parent ends the child after childTimeout and reads
+	// from the trace which call that was.
+	stage := func(k int) {
+		if k > 0 {
+			os.Stat(filepath.Join(spec.State, sprintf(".c04-call-%d", k)))
+		}
 	}
 	var d *db.DB
 	k0 := 0
 	if spec.Create {
+		stage(1)
 		os.Stat(filepath.Join(spec.State, ".c04-begin"))
 		d, err = db.Open(path, kek, audit.New(io.Discard))
 		os.Stat(filepath.Join(spec.State, ".c04-end"))
@@ -195,8 +213,9 @@ func c04Child(o Opts) {
 			res.Res = resObs{Class: "other", Err: err.Error()}
 		} else {
 			res.Res = resObs{Class: "ok"}
+			stage(2)
 			res.Gen1 = d.WriteGen()
-		}
+			}
 		k0 = kek.count()
 		res.KEKCalls = append(res.KEKCalls, 0, k0)
 	} else {
@@ -209,9 +228,12 @@ func c04Child(o Opts) {
 		}
 		res.Gen0 = d.WriteGen()
 		k0 = kek.count()
+		stage(1)
 		os.Stat(filepath.Join(spec.State, ".c04-begin"))
 		res.Res = applyOp(d, super, spec.Op)
 		os.Stat(filepath.Join(spec.State, ".c04-end"))
+		write() // what the operation reported, in case nothing after it returns
+		stage(2)
 		res.Gen1 = d.WriteGen()
 		res.KEKCalls = append(res.KEKCalls, k0, kek.count()-k0)
 	}
@@ -219,6 +241,7 @@ func c04Child(o Opts) {
 	res.Dir = listDir(spec.State)
 	res.Disk1 = observeFile(path, kek.inner)
 	if d != nil {
+		stage(3)
 		dump, derr := dumpVia(d, super)
 		res.Served, res.ServedOK = dump, derr == nil
 	}
@@ -233,12 +256,14 @@ func c04Child(o Opts) {
 				res.Res2 = resObs{Class: "ok"}
 			}
 		} else {
+			stage(4)
 			res.Res2 = applyOp(d, super, spec.Op)
-		}
+			}
 		if d != nil {
+			stage(5)
 			res.Gen2 = d.WriteGen()
 			res.Served2, _ = dumpVia(d, super)
-		}
+			}
 		res.Dir2 = listDir(spec.State)
 	}
 	if !spec.Create {
